@@ -232,11 +232,11 @@ class Piece:
     """Extracted region + mechanical transforms + spec insertions."""
 
     def __init__(self, region, drop_comments=True, drop_attrs=(), drop_tokens=(), rewrite_asserts=False, keep_attrs=False,
-                 renames=(), drop_blocks=()):
+                 renames=(), drop_blocks=(), error_blocks=()):
         self.region = region
         self.transforms = []
         self.params = dict(drop_comments=drop_comments, drop_attrs=tuple(drop_attrs), drop_tokens=tuple(drop_tokens),
-                           rewrite_asserts=rewrite_asserts, renames=tuple(renames), drop_blocks=tuple(drop_blocks))
+                           rewrite_asserts=rewrite_asserts, renames=tuple(renames), drop_blocks=tuple(drop_blocks), error_blocks=tuple(error_blocks))
         self.base = self._transform(region.text)
         self.inserts = []  # (offset in base, text, label)
 
@@ -270,6 +270,22 @@ class Piece:
                 e += 1
             t = t[:ls] + t[e:]
             self.transforms.append("block dropped (logging only): %r { .. }" % head)
+        for head, replacement in p["error_blocks"]:
+            # a block that only builds an error message and returns it: its body is replaced by a canonical error return,
+            # after checking syntactically that its last statement is a `return` of `Err(..)` values only
+            i = t.find(head)
+            if i < 0 or t.find(head, i + 1) >= 0:
+                raise LostAnchor("error block occurs %d times in %s: %r" % (t.count(head), self.region.src.rel, head))
+            b = t.index("{", i)
+            e = match_brace(t, b)
+            body = t[b + 1:e - 1]
+            stmts = [x for x in re.split(r";\s*\n", body.strip()) if x.strip()]
+            last = stmts[-1].strip() if stmts else ""
+            if not last.startswith("return ") or "Ok(" in last or "Err(" not in last:
+                raise LostAnchor("block %r of %s does not end in `return Err(..)`: not replaced" % (head, self.region.src.rel))
+            t = t[:b + 1] + "\n" + replacement + "\n" + t[e - 1:]
+            self.transforms.append("body of the error block %r (message construction, ends in `return Err(..)`) replaced by %r"
+                                   % (head, replacement.strip()))
         for old, new in p["renames"]:
             if old in t:
                 t = t.replace(old, new)
